@@ -42,18 +42,36 @@ type Chunking struct {
 
 func (c Chunking) plain() bool { return len(c.Cuts) == 0 && c.WSize == 0 && c.RBuf == 0 }
 
-// writeChunked writes data to w as the chunking says.
+// writeChunked writes data to w as the chunking says.  Every Write gets its
+// bytes in a transfer buffer that is overwritten as soon as the call returns
+// (io.Writer: "Write must not retain p"), so an encoder that keeps a slice of
+// the caller's buffer beyond the call produces wrong output.
 func writeChunked(w io.Writer, data []byte, c Chunking) error {
+	var scratch []byte
+	write := func(chunk []byte) error {
+		if cap(scratch) < len(chunk) {
+			scratch = make([]byte, len(chunk))
+		}
+		p := scratch[:len(chunk)]
+		copy(p, chunk)
+		m, err := w.Write(p)
+		for i := range p {
+			p[i] = ^chunk[i] ^ 0x5a
+		}
+		if err != nil {
+			return err
+		}
+		if m != len(chunk) {
+			return fmt.Errorf("short write %d of %d without error", m, len(chunk))
+		}
+		return nil
+	}
 	switch {
 	case c.WSize > 0:
 		for len(data) > 0 {
 			n := min(c.WSize, len(data))
-			m, err := w.Write(data[:n])
-			if err != nil {
+			if err := write(data[:n]); err != nil {
 				return err
-			}
-			if m != n {
-				return fmt.Errorf("short write %d of %d without error", m, n)
 			}
 			data = data[n:]
 		}
@@ -61,22 +79,14 @@ func writeChunked(w io.Writer, data []byte, c Chunking) error {
 	case len(c.Cuts) > 0:
 		prev := 0
 		for _, cut := range append(append([]int{}, c.Cuts...), len(data)) {
-			m, err := w.Write(data[prev:cut])
-			if err != nil {
+			if err := write(data[prev:cut]); err != nil {
 				return err
-			}
-			if m != cut-prev {
-				return fmt.Errorf("short write %d of %d without error", m, cut-prev)
 			}
 			prev = cut
 		}
 		return nil
 	default:
-		m, err := w.Write(data)
-		if err == nil && m != len(data) {
-			err = fmt.Errorf("short write %d of %d without error", m, len(data))
-		}
-		return err
+		return write(data)
 	}
 }
 
